@@ -149,6 +149,7 @@ func DrawJPEG(t *tape.Tape, withICC int, iccSizes []int, allowDamage bool, perm 
 	}
 	has := withICC == 1 || (withICC == 0 && t.Bool())
 	var iccSegs []JPEGSeg
+	sofLast := false // the frame header follows every ICC chunk
 	if has {
 		if iccSizes == nil {
 			iccSizes = []int{1, 2, 128, 500, 3000, 4096, 65518, 65519, 65520, 65521, 2 * 65519, 200000}
@@ -203,7 +204,7 @@ func DrawJPEG(t *tape.Tape, withICC int, iccSizes []int, allowDamage bool, perm 
 			iccSegs = append(iccSegs, iccChunkSeg(byte(ci+1), byte(n), parts[ci]))
 		}
 		if allowDamage && t.Chance(1, 4) {
-			kinds := []string{"number-zero", "number-high", "total-zero"}
+			kinds := []string{"number-zero", "number-high", "total-zero", "extra-number-zero", "extra-number-high", "extra-total-differs"}
 			if n >= 2 {
 				kinds = append(kinds, "missing", "missing", "total-differs", "total-differs")
 			} else {
@@ -242,6 +243,35 @@ func DrawJPEG(t *tape.Tape, withICC int, iccSizes []int, allowDamage bool, perm 
 					iccSegs[i].Payload[12] = byte(n + 1 + (arg>>8)%(255-n))
 					iccSegs[i].Tag += "(num>total)"
 				}
+			case "extra-number-zero", "extra-number-high", "extra-total-differs":
+				// the complete set plus one more ICC chunk that is damaged on its own
+				// (anywhere among the others, also after the set is complete). The
+				// frame header follows all of them: a loader has to walk past every
+				// one, so the damage cannot go unseen (after the frame header a
+				// loader may stop at the complete set, and the answer is ambiguous).
+				num, tot := byte(0), byte(n)
+				switch p.Damage {
+				case "extra-number-high":
+					if n == 255 {
+						p.Damage = "extra-number-zero"
+					} else {
+						num = byte(n + 1 + (arg>>8)%(255-n))
+					}
+				case "extra-total-differs":
+					tot = byte(1 + (arg>>8)%255)
+					if tot == byte(n) {
+						tot = byte(n%255 + 1)
+					}
+					num = byte(1 + (arg>>4)%int(tot))
+				}
+				extra := iccChunkSeg(num, tot, p.ICC[:1+arg%min(len(p.ICC), 40)])
+				extra.Tag += "(extra)"
+				pos := arg % (len(iccSegs) + 1)
+				if p.Damage == "extra-total-differs" && pos == 0 {
+					pos = 1 // never the first chunk in the stream (see total-differs)
+				}
+				iccSegs = append(iccSegs[:pos:pos], append([]JPEGSeg{extra}, iccSegs[pos:]...)...)
+				sofLast = true
 			case "total-zero":
 				// a single-chunk profile whose total byte is zero: chunk number 1 is out of range
 				iccSegs = iccSegs[:1]
@@ -272,6 +302,9 @@ func DrawJPEG(t *tape.Tape, withICC int, iccSizes []int, allowDamage bool, perm 
 	// merge the three ordered lists (others, ICC chunks, SOF) at random,
 	// keeping each list's own order
 	lists := [][]JPEGSeg{others, iccSegs, {sof}}
+	if sofLast {
+		lists = [][]JPEGSeg{others, append(iccSegs, sof), nil}
+	}
 	r := t.Sub()
 	for {
 		rem := 0
